@@ -8,7 +8,7 @@ reg("C22",
     engine="dx_shape",
     technique="runtime monitor: differential execution of shape variants of generated dfir_syntax! programs "
               "(pull/push colour flips measured with the real front end), per-variant compile outcome",
-    text="32 (quick) / 220 (thorough) seeded base programs over a 27-operator catalogue (all persistence variants, defer_tick "
+    text="32 (quick) / 200 (thorough) seeded base programs over a 27-operator catalogue (all persistence variants, defer_tick "
          "cycles), each with 3-6 semantically identical shape variants (identity/map(|x| x)/tee+null/unary union or tee/"
          "union with an empty source/handoff() on random edges, shuffled declaration order) selected so that operators "
          "flip between pull and push and subgraphs split or merge; all variants must compile or none (front end observed "
@@ -24,7 +24,7 @@ reg("C25",
     engine="dx_shape",
     technique="runtime monitor: generated programs whose closures log every value seen through #refs, judged against a "
               "plain-Rust model of the settled state and the access-group order",
-    text="24 (quick) / 120 (thorough) seeded programs with 1-3 shared states (fold->singleton(), reduce->optional(), "
+    text="24 (quick) / 80 (thorough) seeded programs with 1-3 shared states (fold->singleton(), reduce->optional(), "
          "handoff(); 'tick and 'static; 1-3 producers at varying subgraph distance, optionally through defer_tick) and 2-5 "
          "closures (map/filter/inspect/for_each/flat_map/filter_map) holding #x, #mut x, #{N} x, #{N} mut x on 1-2 states, "
          "declaration order shuffled; 200 / 2 000 histories each. Every read must equal the value after all same-tick "
@@ -39,7 +39,7 @@ reg("C26",
     engine="dx_shape",
     technique="runtime monitor: generated nested-loop programs with per-run taps, judged against a small explicit reference "
               "of the documented loop semantics and against the runtime's own subgraph run counters",
-    text="24 (quick) / 120 (thorough) seeded programs with 1-2 root-level loops and nested loops to depth 3 (batch / "
+    text="24 (quick) / 80 (thorough) seeded programs with 1-2 root-level loops and nested loops to depth 3 (batch / "
          "batch_lazy entries, all_iterations exits, countdown / bounded-reachability / one-shot feedback through defer_tick "
          "or defer_tick_lazy, child loops inside feedback paths, sibling loops); 200 / 2 000 histories each. Per tap and "
          "tick the sequence of per-run item multisets, and per loop and tick the number of body runs, must equal the "
